@@ -90,7 +90,7 @@ def c09_key(raw, toks, res, pos):
         feats.append("tri")
     if "\n" in ptxt.replace("\\\n", "").replace("??/\n", ""):
         feats.append("nl")
-    if "bs-tab" in feats:
+    if "bs-tab" in feats or "??/\t" in ptxt:
         return "C09|tab-after-backslash-in-literal"
     return "C09|prev=%s|in-prev=%s" % (prev.type if prev else "^", "+".join(feats) or "-")
 
@@ -154,7 +154,7 @@ def check_one(camp, pid, raw, name="x.c", origin="soup"):
             else:
                 camp.fail("C09|unlocated", "no position-consistent alignment", {"name": name, "text": raw, "origin": origin})
         elif res["bad_ok"] is False:
-            camp.fail("C09|tab-after-backslash-in-literal" if "\\\t" in raw else "C09|bad-lexeme-position", "BAD_LEXEME diagnostics at %s, skipped characters at %s" % (res["bad_detail"][1], res["bad_detail"][0]),
+            camp.fail("C09|tab-after-backslash-in-literal" if ("\\\t" in raw or "??/\t" in raw) else "C09|bad-lexeme-position", "BAD_LEXEME diagnostics at %s, skipped characters at %s" % (res["bad_detail"][1], res["bad_detail"][0]),
                       {"name": name, "text": raw, "origin": origin})
 
 
